@@ -51,7 +51,9 @@ RULE_ADDED = (
               ' '
               'Round 14: one signing run in eight gets a one-time key with a zero-leading coord'
               "inate (the library's generator asked again until it yields one); tool runs with "
-              'terminal / locale variables exported. ')
+              'terminal / locale variables exported. '
+              ' '
+              'Round 15: images read through an anonymous pipe (hash, message). ')
 RULE = RULE + " " + RULE_ADDED.strip()
 ASSUMPTIONS = [
     "own Intel-HEX writer (pv/gen/ihex.py); areas do not overlap",
